@@ -250,6 +250,23 @@ def run_translator(overlay):
         rc, out = run(cmd, timeout=300)
         if rc != 0:
             raise RuntimeError("translator failed:\n" + out)
+        # extra translators: harness/cmd/translate_<x>/main.go (stdlib only), same flags, each writes coq/Gen/<...>.v
+        for src in sorted(glob.glob(os.path.join(VERIF, "harness", "cmd", "translate_*", "main.go"))):
+            name = os.path.basename(os.path.dirname(src))
+            xb = os.path.join(VERIF, "bin", name)
+            srcs = glob.glob(os.path.join(os.path.dirname(src), "*.go"))
+            if not os.path.exists(xb) or os.path.getmtime(xb) < max(os.path.getmtime(f) for f in srcs):
+                rc, o2 = run(["go", "build", "-o", xb, "."], cwd=os.path.dirname(src),
+                             env=dict(GOENV, GOFLAGS="", GO111MODULE="off"), timeout=600)
+                if rc != 0:
+                    raise RuntimeError("%s build failed:\n%s" % (name, o2))
+            cmd = [xb, "-repo", REPO, "-outdir", os.path.join(COQ, "Gen")]
+            if overlay:
+                cmd += ["-overlay", overlay]
+            rc, o2 = run(cmd, timeout=600)
+            if rc != 0:
+                raise RuntimeError("%s failed:\n%s" % (name, o2))
+            out += o2
         return out
 
 
